@@ -187,7 +187,7 @@ func init() {
 			{"keyed-insert", "find-or-replace before append on keyed collections", func(r *Run) { ruleKeyedInsert(r, nil) }},
 			{"kind-injective", "getFileNameForType maps kinds to distinct constants", ruleKindInjective},
 			{"ref-flow", "reference id = relationship id", ruleRefFlowHF},
-			{"clone-alias", "rendered documents do not share header/footer reference objects with the template", ruleCloneAliasFor("SectionProperties", "HeaderFooterReference")},
+			{"clone-alias", "rendered documents do not share header/footer reference objects with the template", ruleCloneAliasFor("SectionProperties", "HeaderFooterReference", "FooterReference")},
 			{"alloc-scans-all", "the relationship id allocator's scanning loop has no early exit", ruleAllocScansAll},
 			{"rel-serialise-all", "every relationship of the in-memory list (the newest header/footer relationship included) is written to the relationship part on save", ruleRelSerialiseAll},
 			{"sectpr-singleton", "header/footer calls find the one section-properties element wherever it is (full search before a new one is appended)", ruleSectPrSingleton},
